@@ -12,6 +12,21 @@ CHECKS = {
   "Executes the real server on an in-memory segment-preserving transport for every stream over {'.',CR,LF,x} up to a length bound (plus seeded 256-octet streams), under many segmentations and backend read-buffer plans; the octets and terminal error observed by the recording backend are compared with an independent line-splitter reference. Exhaustive in the bound, sampled beyond it; a monitor of executions, not a proof.",
   "Trusts the harness reference (ref.Unstuff), the in-memory transport and the Go runtime; streams with LF-free runs above MaxLineLength are out of scope (C19).",
   "DESIGN.md section 5 C01"),
+ "C02": ("exploration",
+  "runtime monitoring: bait-address and marker-command oracle over the backend event log and reply accounting, hostile bodies with terminator look-alikes",
+  "Runs the real server on message bodies assembled from bait command lines and end-of-data look-alikes, across backend behaviours, size limits, SMTP/LMTP modes and segmentations; the recording backend must never see a bait address, the first command executed after the message must be the marker that follows the true CRLF.CRLF and the reply count after 354 must be exactly finals+4. Observes executions of a generated corpus; no claim beyond it.",
+  "Trusts ref.Unstuff for where the true end marker is, the in-memory transport and the recording backend; acceptance of the message itself is not judged here (C06).",
+  "DESIGN.md section 5 C02"),
+ "C05": ("exploration",
+  "runtime monitoring: recording backend reader and reply accounting over exhaustive chunk compositions x segmentations, bait payloads for refused BDATs",
+  "Drives the real server with every composition of short hostile messages into up to four BDAT chunks (zero-size chunks and both LAST placements included), seeded chunkings of longer binary messages, four segmentation disciplines and five refusal states whose chunks carry bait commands; compares the octets, terminal error and call count seen by the recording backend with what was sent, counts replies and checks that marker commands are executed in place.",
+  "Known finding C05:linelimit-readahead (KNOWN_FINDINGS.txt) is matched narrowly by precondition+symptom; BDAT with unparsable size not judged.",
+  "DESIGN.md section 5 C05"),
+ "C06": ("exploration",
+  "runtime monitoring: octet counting at the backend reader, reply codes, differential run with the limit off",
+  "Executes, for limits N in a small range, messages of N-2..N+2 and 3N octets via DATA (plain and dot-stuffed) and via every composition into up to three BDAT chunks, with several backend read sizes and declared SIZE values; the recording reader's octet count and terminal error, the reply codes and a second execution of the same case without limit are compared.",
+  "Backend honours the contract of returning the reader's error; SIZE beyond 32 bits left to C11/C14.",
+  "DESIGN.md section 5 C06"),
 }
 
 NOT_APPLICABLE = {
